@@ -844,6 +844,9 @@ class Generator(TreeListener):
         indices = []
         for_loop = None
         for i, (index_array, shape) in enumerate(zip(tree.indices, shapes)):
+            if len(index_array) < len(shape) and any(d is not None for d in shape):
+                # Modelica: missing trailing subscripts mean ":" (A[i] is row i)
+                index_array = list(index_array) + [None] * (len(shape) - len(index_array))
             if len(index_array) > len(shape):
                 symbol_name = (
                     s.name()
